@@ -2,9 +2,20 @@
 """Print the brief for an independent 'breaker' sub-agent for one property (no /verif content beyond the property text)."""
 import json, sys
 pid = sys.argv[1]
+round2 = len(sys.argv) > 2 and sys.argv[2] == "r2"
 prop = [json.loads(l) for l in open('/verif/properties.jsonl') if l.strip() and json.loads(l)['id'] == pid][0]
 wt = f"/tmp/mut-{pid}"
 out = f"/tmp/mut-{pid}-out"
+avoid = ""
+if round2:
+    import glob
+    prev = []
+    for f in sorted(glob.glob(f"/verif/seeded/{pid}-*/meta.json")):
+        m = json.load(open(f))
+        w = m.get("what_changed") or m.get("title") or ""
+        prev.append("- " + (w if isinstance(w, str) else json.dumps(w))[:400].replace("\n", " "))
+    avoid = "\n\nEarlier attempts for this property already used the following changes; yours must use DIFFERENT sites and mechanisms (do not repeat or trivially vary them), and should be at least as subtle:\n" + "\n".join(prev) + "\n"
+
 print(f"""You are testing how well a verification effort can detect subtle regressions in the Python/numba (and Rust) project NNPDF/eko (a DGLAP evolution solver). You work ONLY in the git worktree {wt} (a checkout of the repository; run Python with /venv/bin/python, and ALWAYS with PYTHONPATH={wt}/src so that your edited sources are imported instead of the installed ones; use NUMBA_DISABLE_JIT=1 as the project's own test-suite does). Do not read or touch /verif or /repo (off limits), and do not use the network.
 
 Here is a semantic property that the project is supposed to satisfy (JSON):
@@ -15,7 +26,7 @@ Your job: produce TWO different, realistic source changes (each a small patch to
  1. BREAKS the property above (the stated behaviour no longer holds for some input / configuration / history / schedule / crash point),
  2. still imports/compiles, and passes the project's EXISTING test-suite exactly as before: run `cd {wt} && PYTHONPATH={wt}/src NUMBA_DISABLE_JIT=1 /venv/bin/python -m pytest -q -p no:cacheprovider --no-cov --continue-on-collection-errors -n 4 tests benchmarks 2>&1 | tail -15` on the unmodified worktree first to get the baseline (a few tests fail or error at collection in this sandbox because lhapdf/banana data are absent — that is the baseline), then with each change: the set of failing tests must be identical,
  3. needs something SPECIFIC to manifest — a particular configuration (e.g. only one nf, one order, one method, one scheme), an unusual input (a NumPy scalar, a value exactly on a boundary, a particular grid), a particular multi-step sequence of operations or history, a fault at a particular point, a particular schedule, or two cooperating sites that each look fine alone — NOT something ordinary use or a trivial smoke test would expose at once, and not something absurd (no `if x == 0.1234`, no random behaviour, no sabotage that a reviewer would spot as malicious; think: wrong coefficient in one branch, swapped operands that only matter for non-commuting matrices, off-by-one on a rarely-used path, dropped copy, stale cache key, wrong index into a tuple, missing abs, wrong sign in one nf-dependent term, condition inverted in an edge case...).
-The two changes should use different mechanisms / sites.
+The two changes should use different mechanisms / sites.{avoid}
 
 For each change k in (1,2) deliver in {out}/k/ :
  - patch.diff : `git -C {wt} diff` of that change alone (relative to the worktree HEAD), applying cleanly with `git apply`,
